@@ -129,6 +129,7 @@ package sql
 
 //@ func (*ATTx).commitOnAT
 //@   prop C02
+//@   requires forall(i, 0, len(txHooks), txHooks[i] != nil)
 //@   requires tx != nil && tx.tx != nil && tx.tx.tranCtx != nil && tx.tx.tranCtx.RoundImages != nil && tx.tx.conn != nil && tx.tx.target != nil
 //@   requires ghost.dtx == 1 && ghost.registers == 0 && ghost.flushes == 0 && ghost.reports == 0 && !ghost.reported_failed && !ghost.reported_done && !ghost.report_acked && tx.tx.tranCtx.BranchID == 0
 //@   let ctx := tx.tx.tranCtx
@@ -153,6 +154,7 @@ package sql
 
 //@ func (*ATConn).createNewTxOnExecIfNeed
 //@   prop C02
+//@   requires forall(i, 0, len(txHooks), txHooks[i] != nil)
 //@   modifies c.Conn.txCtx, c.Conn.autoCommit, ghost.dtx, ghost.f_calls, ghost.f_ok, ghost.registers, ghost.reg_ok, ghost.flushes, ghost.flush_ok, ghost.reports, ghost.report_acked, ghost.reported_failed, ghost.reported_done, ghost.ctx_done
 //@   requires c != nil && c.Conn != nil && c.Conn.txCtx != nil && c.Conn.res != nil && c.Conn.targetConn != nil
 //@   requires ghost.dtx == 0 && ghost.f_calls == 0 && ghost.registers == 0 && ghost.flushes == 0 && ghost.reports == 0 && !ghost.reported_failed && !ghost.reported_done && !ghost.report_acked
@@ -224,10 +226,11 @@ package sql
 // The base Tx is shared by AT (target = the driver's transaction) and XA (no target: XA START/END
 // replace BEGIN/COMMIT); its Rollback must be callable in both.
 //@ func (*Tx).Rollback
-//@   prop C17
+//@   prop C17 C02
 //@   requires tx != nil && forall(i, 0, len(txHooks), txHooks[i] != nil)
 //@   modifies ghost.dtx
-//@   ensures xa-no-local-tx: tx.target == nil ==> ghost.dtx == old(ghost.dtx)
+//@   ensures xa-no-local-tx: tx.target == nil ==> ghost.dtx == old(ghost.dtx) && result == nil
+//@   ensures rolls-back-the-target: tx.target != nil ==> (result == nil ==> ghost.dtx == 3) && (result != nil ==> ghost.dtx == old(ghost.dtx))
 //@   loop 1 invariant index: rangeindex >= -1
 //@   nopanic
 
